@@ -44,7 +44,7 @@ fn rat(v: f64) -> Value {
         e += 1;
     }
     // every value printed must come from an exact computation: far fewer than 53 significant bits
-    if m >= (1u64 << 50) || !(-40..=10).contains(&e) {
+    if v.abs() >= (1u64 << 45) as f64 || e < -40 {
         INEXACT.with(|c| c.set(true));
         return json!(null);
     }
@@ -438,8 +438,18 @@ fn timestamps(rng: &mut Rng, count: usize, allow_negative: bool) -> (Vec<i64>, V
         let g = rng.range(0, 6);
         let m = if rng.chance(1, 4) { *rng.pick(&[3i64, 5, 7]) } else { 1 };
         t += m << g;
+        if t <= 0 {
+            // two timestamps below 1 would share the u64 key 0 (that class is generated separately)
+            t = 1 + (m << g);
+        }
         ts.push(t);
         gaps.push((m, g));
+    }
+    // a clamped step changes the first gap: recompute it as (odd part, power of two)
+    for i in 0..gaps.len() {
+        let span = ts[i + 1] - ts[i];
+        let g = span.trailing_zeros() as i64;
+        gaps[i] = (span >> g, g);
     }
     (ts, gaps)
 }
@@ -578,7 +588,8 @@ fn gen_core_ok(rng: &mut Rng) -> Value {
         let f = rng.usize(0, n - 1);
         let to = n + rng.usize(0, 1);
         if with_fb || f * n + to < n * n {
-            qs.push(json!({"v": 0, "f": f, "t": to, "at": frac(rng.range(0, 60), 1), "arr": false}));
+            let at = qs.iter().filter(|q| q["v"] == 0).nth(rng.usize(0, 5)).map(|q| q["at"].clone()).unwrap_or(json!([0, 1]));
+            qs.push(json!({"v": 0, "f": f, "t": to, "at": at, "arr": false}));
         }
     }
     if with_fb {
@@ -793,6 +804,8 @@ fn gen_prag(rng: &mut Rng) -> Value {
             let len = if rng.chance(1, 2) { (n * n).saturating_sub(1) } else { n * n + 1 };
             let codes: Vec<i64> = (0..len).map(|_| if rng.chance(1, 2) { 1 } else { 0 }).collect();
             ms[i]["err"] = json!(codes);
+            // the data is cut / extended to the length of the codes: not a square number of entries any more (D1)
+            dev = json!("D1");
             broken = true;
         }
         9 if named && !timed => {
